@@ -503,6 +503,20 @@ func confirm(driver int, src string, extra ...string) confirmation {
 	file := filepath.Join(dir, "verif.ego")
 	_ = os.WriteFile(file, []byte(src), 0o644)
 
+	ego := os.Getenv("VERIF_EGO")
+	realDecides := (driver == drvRun || driver == drvPipe) && ego != ""
+
+	if realDecides {
+		// `ego run`: the plain binary is where the statement observes the crash
+		confirmReal(&c, driver, file, dir, ego, extra)
+
+		if c.Real == "crashed" || len(extra) > 0 {
+			c.Single = "not run (the ego binary decides)"
+
+			return c
+		}
+	}
+
 	var (
 		crashed  bool
 		head     string
@@ -512,26 +526,25 @@ func confirm(driver int, src string, extra ...string) confirmation {
 
 	errFile := filepath.Join(dir, "single.err")
 
-	if len(extra) == 0 {
-		cmd := exec.Command(os.Args[0], "c07worker", "single", fmt.Sprint(driver), file, errFile)
-		cmd.Env = workerEnv(100)
-		cmd.Dir = dir
+	cmd := exec.Command(os.Args[0], "c07worker", "single", fmt.Sprint(driver), file, errFile)
+	cmd.Env = workerEnv(100)
+	cmd.Dir = dir
 
-		_, _, timedOut = runLimited(cmd, 10*hangLimit)
-		trace = tail(errFile, 1<<20)
+	_, _, timedOut = runLimited(cmd, 10*hangLimit)
+	trace = tail(errFile, 1<<20)
 
-		if i := strings.Index(trace, "C07-SINGLE-START"); i >= 0 {
-			trace = trace[i:]
-		}
-
-		crashed, head = goCrash(trace)
+	if i := strings.Index(trace, "C07-SINGLE-START"); i >= 0 {
+		trace = trace[i:]
 	}
 
+	crashed, head = goCrash(trace)
+
 	switch {
-	case len(extra) > 0:
-		c.Single = "n/a (command line options are only tried with the ego binary)"
 	case crashed:
-		c.Single, c.SingleHead, c.Trace, c.Site = "crashed", head, trimTrace(trace), crashSite(trace)
+		c.Single, c.SingleHead = "crashed", head
+		if c.Trace == "" {
+			c.Trace, c.Site = trimTrace(trace), crashSite(trace)
+		}
 	case timedOut:
 		c.Single = "timeout"
 	case strings.Contains(trace, "C07-SINGLE-END"):
@@ -540,19 +553,16 @@ func confirm(driver int, src string, extra ...string) confirmation {
 		c.Single = "ended without a Go crash trace: " + strings.TrimSpace(tail(errFile, 300))
 	}
 
-	if driver != drvRun && driver != drvPipe {
+	if !realDecides {
 		c.Real = "n/a"
-
-		return c
 	}
 
-	ego := os.Getenv("VERIF_EGO")
-	if ego == "" {
-		c.Real = "n/a (no ego binary)"
+	return c
+}
 
-		return c
-	}
-
+// confirmReal runs the text with the plain ego binary (file named on the
+// command line, or piped on the standard input) under the workers' limits.
+func confirmReal(c *confirmation, driver int, file, dir, ego string, extra []string) {
 	home := filepath.Join(scratch, "fhome")
 	env := append(os.Environ(), "HOME="+home, "TMPDIR="+filepath.Join(scratch, "tmp"), "GOTRACEBACK=all")
 
@@ -585,7 +595,7 @@ func confirm(driver int, src string, extra ...string) confirmation {
 	rc.Env, rc.Dir = env, dir
 
 	out, exit, timedOut := runLimited(rc, 10*hangLimit)
-	crashed, head = goCrash(out)
+	crashed, head := goCrash(out)
 	c.RealExit = exit
 
 	switch {
@@ -596,8 +606,6 @@ func confirm(driver int, src string, extra ...string) confirmation {
 	default:
 		c.Real = "survived"
 	}
-
-	return c
 }
 
 // genuine: the crash was reproduced where the statement observes it.
@@ -663,7 +671,7 @@ func main() {
 		r.Rule("replay of one witness")
 
 		if c.genuine(w.DriverN) {
-			r.Violation("crash:"+c.Site, len(w.Source), w, "Go crash reproduced: "+c.SingleHead+c.RealHead)
+			r.Violation("crash:"+c.Site, len(w.Source), w, "Go crash reproduced: "+c.RealHead+ifEmpty(c.RealHead, c.SingleHead))
 		}
 
 		r.Finish()
@@ -772,6 +780,12 @@ func main() {
 		r.Set("outcome:"+classNames[c], perClass[c])
 	}
 
+	// The two supervisor-side classes: a text whose worker had to be ended
+	// (blocked, or out of processor time) and a text whose worker died. Their
+	// sum is fixed; a slow death can be taken for a block, so a text may move
+	// between the two from run to run. Neither is a verdict: a death is only
+	// reported after it was reproduced alone.
+	r.Set("outcome:ended_by_supervisor", len(hangs)+deaths)
 	r.Set("outcome:timeout", len(hangs))
 	r.Set("outcome:worker_died", deaths)
 	r.Set("evaluations_per_driver", perDriver)
@@ -859,7 +873,9 @@ func main() {
 		var first *witness
 
 		for n, c := range g.items {
-			if n >= 3 {
+			// three texts per group; two when the group was only seen as a
+			// handler panic the router recovers
+			if n >= 3 || (n >= 2 && c.Kind == "router_panic") {
 				break
 			}
 
